@@ -24,7 +24,7 @@ PINNED = {}
 
 
 class C07Check(Check):
-    """line-level ddmin (vcheck) followed by token-level minimisation of the key lists of bget / pbget lines"""
+    """line-level ddmin (vcheck) followed by token-level minimisation of the key lists of bget / sbget / pbget lines"""
 
     def shrink(self, case_ops, hbin, exe, exe_args, budget=150, only_prop=False, want_prop=False):
         cur = super().shrink(case_ops, hbin, exe, exe_args, budget)
@@ -33,7 +33,7 @@ class C07Check(Check):
         runs = 0
         for i in range(len(cur)):
             w = cur[i].split()
-            if w[0] not in ("bget", "pbget"):
+            if w[0] not in ("bget", "sbget", "pbget"):
                 continue
             j = 1
             while j < len(w) and len(w) > 2 and runs < 60:
@@ -71,8 +71,7 @@ PINNED.update({
     "internal/unionstore/union_store.go:Get": "f5b45acff35b966c",
     "internal/unionstore/union_store.go:Iter": "08a97dc1a9233908",
     "internal/unionstore/union_store.go:IterReverse": "9bb9388980cf2662",
-    # BatchGet: the model is written for the REPAIRED loop (see batchGet / batchGetAsIs); this is the fingerprint of the loop as found
-    "txnkv/transaction/batch_getter.go:BatchGet": "6be51834164c2631",
+    "txnkv/transaction/batch_getter.go:BatchGet": "4da152a3991de7f3",  # after fix cbfc345
 })
 
 
@@ -81,20 +80,23 @@ def setup(c):
         "stateful cases (`# case n <mode>` + `reset <mode>`), mode in {us-art, us-rbt: real KVUnionStore over the ART / RBT "
         "buffer and a fake sorted snapshot; txn: real KVTxn (ART) over a KVSnapshot of a single-region mocktikv store that "
         "was loaded by a committed transaction}; `sput` lines give the snapshot content, then a random mix of "
-        "set/del/get/bget/iter/iterrev/staging/release/cleanup/cp/revert (correspondence: raw answers compared with the model) "
+        "set/del/get/bget/sbget/iter/iterrev/staging/release/cleanup/cp/revert (correspondence: raw answers compared with the model) "
         "and pview/pbget/prelease/pcleanup/prevert (property oracle evaluated on each side's OWN answers: iteration strictly "
         "ordered, inside bounds, reverse = reversed forward, equal to pointwise Get over every key seen so far and to BatchGet; "
         "BatchGet = pointwise Get incl. duplicated keys; view after cleanup/revert = the view recorded at staging/cp, view after "
-        "release = view before). Key pools: prefix-related keys, empty key, 00/FF bytes, keys that are prefixes of others, shared "
-        "prefixes longer than 20 bytes; bounds nil / empty / on and off existing keys / inverted. distinct = distinct op lines")
+        "release = view before). Undo marks form one stack: checkpoints survive staging and release, a cleanup or a revert "
+        "retires every newer mark, reverts go to the newest or to older valid checkpoints, inadmissible reverts answer bad-cp on "
+        "both sides without touching the buffer. Key pools: prefix-related keys, empty key, 00/FF bytes, keys that are prefixes of "
+        "others, shared prefixes longer than 20 bytes; bounds nil / empty / on and off existing keys / inverted; key lists with "
+        "duplicated keys; same-length overwrites of buffered values (the in-place path), also after checkpoints. "
+        "distinct = distinct op lines")
     c.assumptions = [
-        "the write buffer is abstract in the model (sorted map + saved copies): ART/RBT internals are C08's; they are tied here only through the differential",
+        "the write buffer is abstract in the model (sorted map + one stack of undo marks with saved copies): ART/RBT internals (value log, in-place swap, lastCheckpoint) are C08's; they are tied here only through the differential",
         "snapshot values are non-empty (KVSnapshot never returns empty values); snapshot read errors (RPC failures, locks) are not modelled",
-        "RevertToCheckpoint is exercised only for checkpoints taken since the last staging/release/cleanup, and never after a same-length "
-        "overwrite of a buffered value made after the checkpoint (DESIGN §6 S10, owned by C08): the generator changes the value length or retires the checkpoint, and counts both",
+        "RevertToCheckpoint is called on the real buffers only with a checkpoint that is still a position of the value log and above which no staging level is open (the stack discipline of the model); "
+        "anything else is undefined on a log position and answered bad-cp by harness and model without calling the code",
         "us-rbt: an empty NON-nil forward upper bound is replaced by nil (the RBT iterator treats []byte{} as 'below every key', ART and the snapshots as unbounded; RBT is not reachable from KVTxn; reported to C08)",
         "txn mode uses one region (multi-region reverse scans are C05/C09's, DESIGN §6 S9)",
-        "model of BufferBatchGetter.BatchGet = behaviour the property demands (shrink list computed against the complete buffer answer); the loop as it stands is kept as batchGetAsIs with a proved counterexample",
     ]
 
 
